@@ -396,6 +396,14 @@ class Particle(BaseParticle, AmpBase):
                     return False
         return True
 
+    def as_config(self):
+        ret = super(Particle, self).as_config()
+        # init_params replaced mass and width by variables: export the values
+        for k, v in ret[str(self)].items():
+            if isinstance(v, Variable):
+                ret[str(self)][k] = float(v())
+        return ret
+
     def get_amp(self, data, data_c, **kwargs):
         mass = self.get_mass()
         width = self.get_width()
